@@ -29,8 +29,14 @@ class FunTranslator:
         self.fn, self.rel = fn, rel
         self.opaque_roots = set(opaque_roots)
         a = fn.args
-        if a.vararg or a.kwarg or a.kwonlyargs or a.posonlyargs:
+        if a.kwonlyargs or a.posonlyargs:
             self.bad(fn, "only plain parameters are accepted")
+        # *args / **kwargs are accepted only as sinks: the body must never mention them
+        self.extra = bool(a.vararg or a.kwarg)
+        sink_names = {x.arg for x in (a.vararg, a.kwarg) if x is not None}
+        for n in ast.walk(fn):
+            if isinstance(n, ast.Name) and n.id in sink_names:
+                self.bad(n, "*args/**kwargs parameter is used in the body")
         if fn.decorator_list:
             self.bad(fn, "decorated function")
         if isinstance(fn, ast.AsyncFunctionDef):
@@ -129,8 +135,16 @@ class FunTranslator:
             if any(isinstance(a, ast.Starred) for a in e.args) or any(k.arg is None for k in e.keywords):
                 self.bad(e, "star-arguments in a call")
             kws = clist("(%s, %s)" % (cstr(k.arg), self.expr(k.value)) for k in e.keywords)
-            return "(ECall %s %s %s)" % (self.expr(e.func), clist(self.expr(a) for a in e.args), kws)
+            return "(ECall %s %s %s)" % (self.callee(e.func), clist(self.expr(a) for a in e.args), kws)
         self.bad(e, "expression outside the fragment: " + type(e).__name__)
+
+    def callee(self, f):
+        """the function position of a call: never collapsed into an opaque chain"""
+        if isinstance(f, ast.Attribute):
+            inner = f.value
+            recv = self.callee(inner) if isinstance(inner, ast.Attribute) else self.expr(inner)
+            return "(EAttr %s %s)" % (recv, cstr(f.attr))
+        return self.expr(f)
 
     # ---- targets
     def target(self, t):
@@ -206,7 +220,8 @@ class FunTranslator:
                     self.bad(d, "non-constant default")
                 ps.append("(%s, Some %s)" % (cstr(p), self.const(d)))
         body = body_without_docstring(self.fn)
-        return "{| fparams := %s;\n   fbody := %s |}" % (clist(ps), self.block(body, 13))
+        return "{| fparams := %s;\n   fextra := %s;\n   fbody := %s |}" % (
+            clist(ps), "true" if self.extra else "false", self.block(body, 13))
 
 
 def function_term(repo, rel, name, cls=None, opaque_roots=()):
